@@ -841,18 +841,22 @@ def replay(ctx, data):
     return 0 if ok else 1
 
 
-LEVEL_TEXT = ("Proof (Coq, 9 theorems): for every event list the Tree stack machine of the model never raises and keeps the root at "
+LEVEL_TEXT = ("Proof (Coq, 16 theorems): for every event list the Tree stack machine of the model never raises and keeps the root at "
               "the bottom of a non-empty stack (C16_build_total); the element store is a tree and walk(root) enumerates every "
               "element exactly once (C16_tree_consistent); for every well-formed document render(build(parse(print h))) = print h "
               "under the html.parser oracle (C16_roundtrip), at any position of any sequence of calls, each of which starts from a "
               "fresh parser state (C16_fresh_state); find = filter over walk in document order (C16_find_is_filter); deepcopy / "
               "strip(inplace=False) leave every pre-existing cell unchanged (C16_copy_strip_pure), deepcopy returns an isomorphic "
               "tree that renders and walks identically (C16_deepcopy_isomorphic), strip() returns the original minus exactly its "
-              "whitespace-only Data children (C16_strip_exact, C16_strip_step_exact). render templates, attribute escaping, void "
+              "whitespace-only Data children (C16_strip_exact, C16_strip_step_exact), strip(recurse=True) returns the original minus "
+              "those children at every level (C16_strip_recursive_exact, _render, _src). render templates, attribute escaping, void "
               "set, handler->class table and the one-parser-per-call shape of tokenize_html are regenerated / pinned from "
-              "parse_html.py on every run; the hand-written stack machine is tied to the code by differential correspondence on "
-              "the real html.parser event streams.")
-LEVEL_NOTE = ("Trusted: Coq kernel; hand transcription of Tree/Element into coq/Html/HtmlModel.v (correspondence, not proof); "
+              "parse_html.py on every run. Source-translation tie: Element.insert/append/walk/deepcopy/reset_children/strip/find, "
+              "Tree.last/nest_*/enclose and the HtmlToAst handlers are regenerated statement by statement into coq/Gen/HtmlSrc.v "
+              "and proved equal to the hand-written model, so C16_build_total_src, C16_tree_consistent_src, C16_find_is_filter_src "
+              "and C16_copy_strip_pure_src hold of the regenerated code; render's recursion, Tree.__init__/clear and "
+              "Attribute.classes stay tied by differential correspondence on the real html.parser event streams.")
+LEVEL_NOTE = ("Trusted: Coq kernel; the statement translator gen/pysrc.py + domain mapping coq/Html/SrcPrims.v; hand transcription of render / Tree.__init__ / Attribute into coq/Html/HtmlModel.v (correspondence, not proof); "
               "html.parser as oracle (O_htmlparser_events exercised exhaustively on small wf documents); 'well-formed' is read as: "
               "lower-case ASCII names, attribute values double-quoted with '&' and '\"' written &amp; / &quot; (or no value), no adjacent text nodes, "
               "script/style containing text only, comments/PI/declarations without '>', declarations starting with doctype, "
